@@ -135,7 +135,80 @@ def _shard(arg) -> Stats:
     return st
 
 
+def _shard3(arg) -> Stats:
+    """terminators with up to THREE ordered successors (non-adjacent duplicates such as [^a, ^b, ^a]) on n blocks"""
+    n, first, seed = arg
+    st = Stats()
+    for rest in itertools.product(succ_choices(n, 3), repeat=n - 1):
+        check_graph(st, (first,) + rest)
+        st.states += 1
+        st.transitions += n
+    return st
+
+
+def _edits(arg) -> Stats:
+    """history: query dominance on a region, edit ONE successor in place, query the SAME region again — every graph on n blocks
+    (successor lists of length 0..2) x every single in-place successor replacement.  The second answers must be those of the
+    edited graph (compared with the path definition and with a freshly built region)."""
+    from xdsl.irdl.dominance import DominanceInfo, strictly_dominates
+
+    n, first, seed = arg
+    st = Stats()
+    for rest in itertools.product(succ_choices(n), repeat=n - 1):
+        graph = (first,) + rest
+        for u in range(n):
+            for i in range(len(graph[u])):
+                for t in range(n):
+                    if t == graph[u][i]:
+                        continue
+                    region, blocks = build(graph)
+                    R0 = reach(graph)
+                    # first round of queries (module-level helper and a DominanceInfo object)
+                    for a in range(n):
+                        for b in R0:
+                            strictly_dominates(blocks[a], blocks[b])
+                    DominanceInfo(region)
+                    for mode in ("setitem", "assign-list"):
+                        if mode == "setitem":
+                            blocks[u].last_op.successors[i] = blocks[t]
+                        else:
+                            region, blocks = build(graph)
+                            for a in range(n):
+                                for b in R0:
+                                    strictly_dominates(blocks[a], blocks[b])
+                            new = list(blocks[u].last_op.successors)
+                            new[i] = blocks[t]
+                            blocks[u].last_op.successors = new
+                        g2 = tuple(tuple(t if (v == u and j == i) else s for j, s in enumerate(ss)) for v, ss in enumerate(graph))
+                        R = reach(g2)
+                        st.states += 1
+                        st.transitions += 1
+                        st.executions += 1
+                        st.nontrivial += 1 if R != R0 else 0
+                        wit = {"graph": [list(x) for x in graph], "edit": {"block": u, "successor_index": i, "new_target": t, "how": mode}}
+                        for a in range(n):
+                            r_wo_a = reach(g2, removed=a)
+                            for b in R:
+                                st.evaluations += 1
+                                ref = a != b and b not in r_wo_a
+                                got = strictly_dominates(blocks[a], blocks[b])
+                                if got != ref:
+                                    st.violate(f"C24|history|strictly_dominates-after-in-place-successor-edit|{mode}",
+                                               f"after replacing a successor in place, strictly_dominates(^{a},^{b}) = {got}, the edited graph says {ref}",
+                                               {**wit, "a": a, "b": b})
+                                got2 = DominanceInfo(region).strictly_dominates(blocks[a], blocks[b])
+                                if got2 != ref:
+                                    st.violate(f"C24|history|DominanceInfo-after-in-place-successor-edit|{mode}",
+                                               f"a DominanceInfo built after the edit says {got2} for (^{a},^{b}), the edited graph says {ref}",
+                                               {**wit, "a": a, "b": b})
+    return st
+
+
 def run(ctx):
+    for _, st in pmap(_shard3, [(n, first, ctx.seed) for n in ((2, 3) if ctx.quick else (2, 3)) for first in succ_choices(n, 3)]):
+        ctx.merge(st)
+    for _, st in pmap(_edits, [(n, first, ctx.seed) for n in ((2, 3) if ctx.quick else (2, 3, 4)) for first in succ_choices(n)]):
+        ctx.merge(st)
     tasks = []
     sizes = [(1, None), (2, None), (3, None), (4, None)]
     if not ctx.quick:
@@ -145,6 +218,8 @@ def run(ctx):
             tasks.append((n, first, max_edges, ctx.seed))
     # three-successor terminators on 3 blocks (thorough only adds 4 blocks <=5 edges)
     ctx.bounds = {"blocks": [s[0] for s in sizes], "successors_per_block": "ordered lists of length 0..2",
+                  "three_successor_terminators_on_blocks": [2, 3],
+                  "in_place_successor_edit_histories_on_blocks": [2, 3] if ctx.quick else [2, 3, 4],
                   "n5_max_edges": None if ctx.quick else 6}
     for _, st in pmap(_shard, tasks):
         ctx.merge(st)
@@ -156,5 +231,8 @@ def run(ctx):
 
 def replay(rep) -> bool:
     st = Stats()
+    if "edit" in rep["witness"]:
+        g = tuple(tuple(x) for x in rep["witness"]["graph"])
+        return rep["signature"] not in _edits((len(g), g[0], 0)).violations
     check_graph(st, tuple(tuple(s) for s in rep["witness"]["graph"]))
     return rep["signature"] not in st.violations
